@@ -357,6 +357,51 @@ def corr_mirror(per_quick, per_thorough):
     return run
 
 
+def corr_inject(n_quick, n_thorough, maxk_quick=24):
+    """C07 / C10: register-transparent programs x every injection point x interrupt kinds.
+    (a) real vs regenerated model vs reference on every vector; (b) transparency, real vs real: the final state of
+    every interrupted run equals the undisturbed run of the same program (modulo R, the log and the stack bytes)."""
+    def norm(line):
+        t = line.split(' ')
+        if len(t) < 20 or t[1] != 'ok':
+            return line
+        t[0] = ''
+        t[11] = t[11][:2] + '..'                 # R
+        j = t.index('MEM')
+        items = [] if t[j + 1] == '-' else [x for x in t[j + 1].split(',') if not (0xef00 <= int(x.split('=')[0], 16) <= 0xefff)]
+        t[j + 1] = ','.join(items) or '-'
+        k = t.index('NLOG')
+        return ' '.join(t[:k])
+
+    def run(ctx, chk, broken):
+        n = n_thorough if ctx.tier == 'thorough' else n_quick
+        maxk = 0 if ctx.tier == 'thorough' else maxk_quick
+        vectors = chk.gen_vectors('inject', ['-seed', str(ctx.seed), '-n', str(n), '-per', str(maxk)])
+        dis, stats, go = chk.correspond(ctx, vectors, want_spec=True)
+        out = [{'stream': st, 'id': vid, 'vector': v, 'real': g, 'other': o} for (st, vid, v, g, o) in dis]
+        byid = {l.split(' ', 1)[0]: l for l in vectors.splitlines() if l.strip()}
+        n_pairs = 0
+        kinds = set()
+        for vid, g in go.items():
+            m = re.match(r'inj-(\d+)-k(\d+)-(\w+)$', vid)
+            if not m:
+                continue
+            base = go.get(f'inj-{m.group(1)}-base')
+            n_pairs += 1
+            kinds.add(m.group(3))
+            if base is None or norm(base) != norm(g):
+                out.append({'stream': 'transparency', 'id': vid, 'vector': byid.get(vid, ''), 'real': 'interrupted run: ' + g[:1500],
+                            'other': 'undisturbed run: ' + (base or 'missing')[:1500]})
+        cov = {'evaluations': len(byid), 'distinct_nontrivial': n_pairs,
+               'rule': 'one vector = one complete run of a generated register-transparent program (IM n, EI, ALU/load code, LDIR/LDDR/CPIR/CPDR, a DI section with CALL/RET, DJNZ loop, OTIR/OTDR/INIR, HALT) on the real code '
+                       'with one request injected before Step k; k ranges over ALL Step boundaries (sampled above %d in the quick tier) x {NMI, mode 1 | mode 2 with vectors 00/13/FE}; handlers use the stack and end EI;RETI / RETN. '
+                       'Every run is compared with the regenerated model and the reference; every interrupted run is compared with the undisturbed run of its program (registers, flags, IFF, IM, HALT, pending request, memory outside the stack page). '
+                       'distinct = (program, k, kind) triples' % maxk_quick,
+               'correspondence': dict(stats, transparency_pairs=n_pairs, kinds=sorted(kinds))}
+        return out, cov
+    return run
+
+
 PROPS = {
     'C01': {
         'targets': ['Z80.Props.C01'],
@@ -491,6 +536,15 @@ PROPS = {
         'assumptions': ['the closed forms exclude copies / inputs whose destination overwrites the two bytes of the running instruction (self-modification); the one-element-per-Step theorems and the correspondence include them',
                         'undocumented flag bits of block I/O are implementation-defined (Impl.koron: taken from the incoming F)'],
         'explanation': 'one Step = exactly one element for all 16 block instructions (explicit post-state); by induction over the count: LDIR/LDDR copy exactly BC bytes in order (overlap propagation), CPIR/CPDR stop at the first match or BC=0, OTIR/OTDR and INIR/INDR move exactly B bytes through port C; PC parked on the instruction until done',
+    },
+    'C07': {
+        'targets': ['Z80.Props.C07'],
+        'count': ['Z80/Proofs/Interrupt.lean', 'Z80/Proofs/Frame.lean', 'Z80/Proofs/RunLoop.lean', 'Z80/Props/C06.lean', 'Z80/Props/C07.lean'] + ALL_OBL,
+        'correspond': corr_inject(6, 80),
+        'assumptions': ['transparency is stated for one request; the handler must restore the registers it uses and leave the stack balanced (premise of return_*); the two bytes below SP are overwritten by the push — a program that reads them before writing them can tell',
+                        'mode 0 with supplied bytes is NOT transparent in this code base: known findings KF-1 (pinned by TestInterruptIM0) and KF-2, witnessed by kernel evaluation (KF1_witness, KF2_witness); not generated by the injection stream',
+                        'HALT keeps PC on the HALT opcode in this emulator, so a CPU parked on HALT resumes the HALT'],
+        'explanation': 'acceptance (NMI / IM 1 / IM 2) pushes exactly the current PC and changes nothing else observable; EI;RETI and RETN from any balanced handler state return to it; complete round trips through minimal handlers end in a state equal to the interrupted one (all registers, IFF, IM, HALT, memory outside two stack bytes) for every state',
     },
     'C16': {
         'targets': ['Z80.Props.C16'],
